@@ -131,6 +131,18 @@ func (s *seqStore) open() (err error) {
 	return nil
 }
 
+// flushAll forces a flush; a fatal error inside it is an observation (recorded for the next check).
+func (s *seqStore) flushAll() {
+	if p := guard(func() { s.hs.VerifFlush() }); p != "" {
+		theHub.mu.Lock()
+		if theHub.fatal == "" {
+			theHub.fatal = p
+		}
+		theHub.mu.Unlock()
+	}
+	s.quiesce()
+}
+
 // guard runs f and turns a panic into an observation.
 func guard(f func()) (panicked string) {
 	if s := curStore; s != nil {
@@ -340,7 +352,7 @@ func (s *seqStore) doDelete(c *Ctx, key string) {
 	} else if !ok {
 		res = "NOT_FOUND"
 	}
-	c.line("del %s size=%d => %s pos=%s", hx([]byte(key)), size, res, pos)
+	c.line("del %s size=%d ts=%d => %s pos=%s", hx([]byte(key)), size, s.observedTS(key, size), res, pos)
 }
 
 func (s *seqStore) doIncr(c *Ctx, key string, delta int) {
@@ -358,12 +370,87 @@ func (s *seqStore) doIncr(c *Ctx, key string, delta int) {
 		c.line("incr %s %d size=%d => ERR pos=%s", hx([]byte(key)), delta, size, pos)
 		return
 	}
-	c.line("incr %s %d size=%d => %d pos=%s", hx([]byte(key)), delta, size, v, pos)
+	c.line("incr %s %d size=%d ts=%d => %d pos=%s", hx([]byte(key)), delta, size, s.observedTS(key, size), v, pos)
+}
+
+// observedTS: delete and incr stamp their record with the server clock; the model needs the value
+// (first-record timestamps decide GC eligibility), so it is read back through ??key.
+func (s *seqStore) observedTS(key string, size uint32) uint32 {
+	if size == 0 {
+		return 0
+	}
+	var item *mc.Item
+	guard(func() { item, _ = s.cl.Get("??" + key) })
+	if item == nil {
+		return 0
+	}
+	f := strings.Fields(string(item.Body))
+	if len(f) < 5 {
+		return 0
+	}
+	ts, _ := strconv.ParseUint(f[4], 10, 32)
+	return uint32(ts)
+}
+
+// doGC: flush (the sequential statement is about quiescent write buffers), resolve the range the
+// way HStore.GC does, then run the pass synchronously.
+func (s *seqStore) doGC(c *Ctx, bkt, begin, end, noGCDays int, merge, pretend bool) {
+	s.flushAll()
+	if theHub.fatal != "" {
+		return
+	}
+	c.line("flush")
+	c.line("files =>%s", s.filesLine())
+	now := time.Now().Unix()
+	var b, e int
+	var err error
+	panicked := guard(func() { b, e, err = s.hs.VerifGCCheckRange(bkt, begin, end, noGCDays) })
+	m := 0
+	if merge {
+		m = 1
+	}
+	pr := 0
+	if pretend {
+		pr = 1
+	}
+	lhs := fmt.Sprintf("gc bkt=%d begin=%d end=%d nogcdays=%d merge=%d pretend=%d now=%d", bkt, begin, end, noGCDays, m, pr, now)
+	if panicked != "" {
+		c.line("%s => PANIC", lhs)
+		return
+	}
+	if err != nil {
+		c.line("%s => REFUSED", lhs)
+		return
+	}
+	if pretend {
+		c.line("%s => RANGE %d %d", lhs, b, e)
+		return
+	}
+	var st *store.GCState
+	panicked = guard(func() { st = s.hs.VerifGCRun(bkt, b, e, merge) })
+	if panicked != "" {
+		c.line("%s => RANGE %d %d PANIC", lhs, b, e)
+		return
+	}
+	errs := "ok"
+	if st.Err != nil {
+		errs = "err"
+	}
+	c.line("%s => RANGE %d %d DONE %s before=%d released=%d sizebefore=%d sizereleased=%d", lhs, b, e, errs,
+		st.NumBefore, st.NumReleased, st.SizeBefore, st.SizeReleased)
+	c.line("files =>%s", s.filesLine())
 }
 
 func (s *seqStore) restart(c *Ctx, r *RNG, mode int) bool {
-	s.hs.Close()
+	if p := guard(func() { s.hs.Close() }); p != "" {
+		c.line("fatal => during close: %s", strings.ReplaceAll(p, "\n", " "))
+		return false
+	}
 	s.quiesce()
+	if f := theHub.takeFatal(); f != "" {
+		c.line("fatal => %s", strings.ReplaceAll(f, "\n", " "))
+		return false
+	}
 	c.line("files =>%s", s.filesLine())
 	// remove a subset of the derived index files
 	keepTree := 1
@@ -528,6 +615,9 @@ func seqCase(c *Ctx, r *RNG, id string, cfg seqCfg) {
 		if !store.IsValidKeyString(k) {
 			continue
 		}
+		if int64(len(k)+24+256) > cfg.dfmax/2 {
+			continue
+		}
 		bkt := 0
 		if depth > 0 {
 			bkt = int(store.VerifKeyHash([]byte(k)) >> (64 - 4*depth))
@@ -547,13 +637,28 @@ func seqCase(c *Ctx, r *RNG, id string, cfg seqCfg) {
 	ts := uint32(1500000000 + r.Intn(1000))
 	nrestart := 0
 	for i := 0; i < nops; i++ {
+		if f := theHub.takeFatal(); f != "" {
+			c.line("fatal => %s", strings.ReplaceAll(f, "\n", " "))
+			c.line("end")
+			return
+		}
 		k := keys[r.Intn(len(keys))]
 		ts += uint32(r.Intn(3))
 		p := r.Intn(100)
 		switch {
 		case p < 42:
-			cls, v := genValue(r, len(k), 4000)
-			if r.Chance(3) {
+			// a record must fit a data file with room to spare ("limits from a few records"): a record
+			// larger than DataFileMax gets a file of its own and GC then pushes its destination past the
+			// source file (observed; outside the configurations the properties quantify over)
+			maxLen := 4000
+			if lim := int(cfg.dfmax)/2 - 280 - len(k); lim < maxLen {
+				maxLen = lim
+			}
+			if maxLen < 0 {
+				maxLen = 0
+			}
+			cls, v := genValue(r, len(k), maxLen)
+			if r.Chance(3) && cfg.dfmax > 1<<20 {
 				cls, v = genValue(r, len(k), 120000)
 			}
 			flag := []uint32{0, 1, 0x10, 0x204, uint32(r.Next()) & 0xFFFEFFFF}[r.Intn(5)]
@@ -589,13 +694,33 @@ func seqCase(c *Ctx, r *RNG, id string, cfg seqCfg) {
 			s.doMeta(c, k)
 			c.count("op.meta")
 		case p < 93:
-			s.hs.VerifFlush()
-			s.quiesce()
+			s.flushAll()
 			c.line("flush")
 			c.count("op.flush")
-		case p < 97:
+		case p < 95:
 			s.doGet(c, k)
 			c.count("op.get")
+		case p < 97 && c.mix != "full":
+			s.doMeta(c, k)
+			c.count("op.meta")
+		case p < 97:
+			bkt := cfg.served[r.Intn(len(cfg.served))]
+			head := s.hs.VerifHead(bkt)
+			begin := r.Intn(head+4) - 2
+			end := r.Intn(head+4) - 2
+			if r.Chance(30) {
+				begin, end = -1, -1
+			}
+			if r.Chance(30) {
+				begin = 0
+			}
+			days := []int{-1, 0, 0, 0, 1, 30, 5000}[r.Intn(7)]
+			s.doGC(c, bkt, begin, end, days, r.Chance(40), r.Chance(10))
+			c.count("op.gc")
+		case c.mix == "client":
+			s.flushAll()
+			c.line("flush")
+			c.count("op.flush")
 		default:
 			if !s.restart(c, r, r.Intn(5)) {
 				c.line("end")
@@ -606,12 +731,21 @@ func seqCase(c *Ctx, r *RNG, id string, cfg seqCfg) {
 		}
 	}
 	// read everything back
+	if f := theHub.takeFatal(); f != "" {
+		c.line("fatal => %s", strings.ReplaceAll(f, "\n", " "))
+		c.line("end")
+		return
+	}
 	for _, k := range keys {
 		s.doGet(c, k)
 		s.doMeta(c, k)
 	}
-	s.hs.VerifFlush()
-	s.quiesce()
+	s.flushAll()
+	if f := theHub.takeFatal(); f != "" {
+		c.line("fatal => %s", strings.ReplaceAll(f, "\n", " "))
+		c.line("end")
+		return
+	}
 	c.line("flush")
 	c.line("files =>%s", s.filesLine())
 	if st := s.strayFiles(); len(st) > 0 {
@@ -687,9 +821,23 @@ func seqReplay(c *Ctx, base string) {
 		case "meta":
 			s.doMeta(c, string(unhx(l.args[0])))
 		case "flush":
-			s.hs.VerifFlush()
-			s.quiesce()
-			c.line("flush")
+			s.flushAll()
+			if f := theHub.takeFatal(); f != "" {
+				c.line("fatal => %s", strings.ReplaceAll(f, "\n", " "))
+			} else {
+				c.line("flush")
+			}
+		case "gc":
+			get := func(name string) int {
+				for _, a := range l.args {
+					if strings.HasPrefix(a, name+"=") {
+						v, _ := strconv.Atoi(a[len(name)+1:])
+						return v
+					}
+				}
+				return 0
+			}
+			s.doGC(c, get("bkt"), get("begin"), get("end"), get("nogcdays"), get("merge") == 1, get("pretend") == 1)
 		case "restart":
 			mode := 0
 			for _, a := range l.args {
@@ -703,8 +851,10 @@ func seqReplay(c *Ctx, base string) {
 				// files lines are emitted by restart/end themselves
 			}
 		case "end":
-			s.hs.VerifFlush()
-			s.quiesce()
+			s.flushAll()
+			if f := theHub.takeFatal(); f != "" {
+				c.line("fatal => %s", strings.ReplaceAll(f, "\n", " "))
+			}
 			c.line("flush")
 			c.line("files =>%s", s.filesLine())
 			s.hs.Close()
